@@ -17,6 +17,7 @@ type params struct {
 	Sizes       []int
 	Ignore      []bool
 	MaxApp      int
+	MaxRefused  int
 	MaxFlight   int
 	Senders     []string
 	MaxFaults   int
@@ -31,6 +32,7 @@ type scen struct {
 	hello          string
 	pm             int
 	noFaults       bool // mf = 0 for this scenario
+	noRefuse       bool // mr = 0 for this scenario
 	uPlusP         bool // enc = "uplusp": reference endpoints send the u half of their key as u + p
 }
 
@@ -88,8 +90,8 @@ func (p params) render() (module, cfg string, files map[string][]byte) {
 	}
 	fmt.Fprintf(&sb, "  GarbageLens = %s\n  DecoyCounts = %s\n  Hellos = %s\n  Encodings = %s\n  PrefixMatches = %s\n",
 		intSet(p.GarbageLens), intSet(p.Decoys), strSet(p.Hellos), strSet(encs), intSet(p.PMs))
-	fmt.Fprintf(&sb, "  Sizes = %s\n  IgnoreOpts = %s\n  MaxApp = %d\n  MaxFlight = %d\n  Senders = %s\n",
-		intSet(p.Sizes), boolSet(p.Ignore), p.MaxApp, p.MaxFlight, strSet(p.Senders))
+	fmt.Fprintf(&sb, "  Sizes = %s\n  IgnoreOpts = %s\n  MaxApp = %d\n  MaxRefused = %d\n  MaxFlight = %d\n  Senders = %s\n",
+		intSet(p.Sizes), boolSet(p.Ignore), p.MaxApp, p.MaxRefused, p.MaxFlight, strSet(p.Senders))
 	tn := "FALSE"
 	if p.TrackNonces {
 		tn = "TRUE"
@@ -110,11 +112,15 @@ func (p params) render() (module, cfg string, files map[string][]byte) {
 			if s.noFaults {
 				mf = 0
 			}
+			mr := p.MaxRefused
+			if s.noRefuse {
+				mr = 0
+			}
 			enc := "canon"
 			if s.uPlusP {
 				enc = "uplusp"
 			}
-			fmt.Fprintf(&mc, "  [gI |-> %d, gR |-> %d, dI |-> %d, dR |-> %d, hello |-> %q, pm |-> %d, mf |-> %d, enc |-> %q]", s.gI, s.gR, s.dI, s.dR, s.hello, s.pm, mf, enc)
+			fmt.Fprintf(&mc, "  [gI |-> %d, gR |-> %d, dI |-> %d, dR |-> %d, hello |-> %q, pm |-> %d, mf |-> %d, mr |-> %d, enc |-> %q]", s.gI, s.gR, s.dI, s.dR, s.hello, s.pm, mf, mr, enc)
 		}
 		mc.WriteString("}\n====\n")
 		files = map[string][]byte{"MCV2.tla": []byte(mc.String())}
